@@ -245,6 +245,13 @@ struct D
 		case 6: { bool x = c.rng.chance(0.5); c.op(vf::fmt("%s=bool %d", where.c_str(), x)); if (c.rng.chance(0.5)) *var = x; else *var = Var(x); r.t = M_BOOL; r.b = x; break; }
 		case 7: { c.op(where + "=NUL"); if (c.rng.chance(0.5)) *var = Var::NUL; else *var = Var(Var::NUL); r.t = M_NUL; break; }
 		default: {
+			if (c.rng.chance(0.06)) {   // the empty string built from its type tag
+				c.op(where + "=Var(Var::STRING)");
+				*var = Var(Var::STRING);
+				r.t = M_STRING; r.s = "";
+				c.count("var.constructed-from-type-tag-STRING");
+				break;
+			}
 			std::string s = rstr();
 			int form = c.rng.below(4);
 			c.op(vf::fmt("%s=str[%d] '%s'", where.c_str(), form, s.c_str()));
